@@ -316,7 +316,7 @@ def cases(tier: str) -> list[dict]:
                             newshape=list(t)))
     # (8) matmul / broadcast_to
     mshapes = [(), (3,), (2,), (2, 3), (3, 2), (3, 3), (2, 2, 3), (2, 3, 2), (1, 3, 2),
-               (4, 3, 2), (0, 3), (3, 0)]
+               (4, 3, 2), (0, 3), (3, 0), (2, 4, 3, 2), (4, 1, 2, 3), (2, 2, 2, 3)]
     for sa, sb in itertools.product(mshapes, repeat=2):
         out.append(case(f"matmul/{sa}/{sb}", [inp("a", sa), inp("b", sb)],
                         {"op": "matmul", "a": 1, "b": 2}, "matmul", [1, 2]))
